@@ -7,13 +7,13 @@ theorem around_async_ctx (φ : Faults) (new c : Ctx) (bodyRun : Ctx → Ctx × O
     (around aenter aexit φ new c bodyRun).1 = c := by
   unfold around aenter aexit
   simp only [run, runAtom]
-  cases h1 : φ .dispEnter <;> cases h2 : φ .groupExit <;> cases h3 : φ .dispExit <;> simp
+  cases h1 : φ .dispEnter <;> cases h2 : φ .groupExit <;> cases h3 : φ .dispExit <;> cases h4 : φ .metricsExit <;> simp
 
 /-- a sync scope block gives the context back provided its body does -/
 theorem around_sync_ctx (φ : Faults) (new c : Ctx) (bodyRun : Ctx → Ctx × Option Exc)
     (hb : ∀ c', (bodyRun c').1 = c') : (around senter sexit φ new c bodyRun).1 = c := by
   unfold around senter sexit
-  simp [run, runAtom, hb]
+  cases h4 : φ .metricsExit <;> simp [run, runAtom, hb, h4]
 
 theorem around_updated_ctx (φ : Faults) (new c : Ctx) (bodyRun : Ctx → Ctx × Option Exc)
     (hb : ∀ c', (bodyRun c').1 = c') : (around uenter uexit φ new c bodyRun).1 = c := by
